@@ -1222,7 +1222,8 @@ class Engine:
                 bs = z3.simplify(b.z)
                 if z3.is_int_value(bs) and bs.as_long() > 0:
                     return Num(a.z / b.z, True)       # z3 int division = floor for positive divisors
-                raise Unsupported("floor division by a non-literal")
+                # symbolic divisor: z3's (Euclidean) division is Python's floor division for a positive divisor, and a // b == (-a) // (-b)
+                return Num(z3.If(b.z > 0, a.z / b.z, (-a.z) / (-b.z)), True)
             if op == "Pow" and both_int:
                 e = z3.simplify(b.z)
                 if z3.is_int_value(e) and 0 <= e.as_long() <= 8:
